@@ -148,8 +148,8 @@ def check(run):
             bad = bad or ("restore-differs", "GET /config differs before and after snapshot+restore at the same revision: %r / %r" % (diffline(canon_cfg(before), canon_cfg(after))), oops)
     # every configuration value must survive snapshot + restore, zero values and empty tables included; and a ban
     # set by GLINE belongs to the configuration in force: a later accepted update without bans removes it
-    cfgA = 'SessionExpiration = "0s"\nPostMessageCooloff = "0s"\nMaxSessions = 0\n[IRC]\n[[IRC.Operators]]\nName = "op"\nPassword = "secret"\n'
-    cfgB = 'SessionExpiration = "10m0s"\nPostMessageCooloff = "0s"\n[IRC]\n[[IRC.Operators]]\nName = "op"\nPassword = "secret"\n'
+    cfgA = 'SessionExpiration = "0s"\nPostMessageCooloff = "3ms"\nMaxSessions = 0\n[IRC]\n[[IRC.Operators]]\nName = "op"\nPassword = "secret"\n'
+    cfgB = 'SessionExpiration = "10m0.5s"\nPostMessageCooloff = "0s"\n[IRC]\n[[IRC.Operators]]\nName = "op"\nPassword = "secret"\n'
     gops = ["start", "postconfig %s 0 %s" % (PW, hx(cfgA)),
             "create o", "create v", "post v ok 1 " + hx("NICK victim"), "post v ok 2 " + hx("USER u 0 * :r"), "post o ok 1 " + hx("NICK oper"), "post o ok 2 " + hx("USER u 0 * :r"),
             "post o ok 3 " + hx("OPER op secret"), "getconfig " + PW, "snapshot 7200", "restart", "getconfig " + PW,
@@ -174,6 +174,29 @@ def check(run):
             bad = bad or ("stale-ban", "an accepted configuration without bans took effect, but a ban of the previous configuration is still in force", gops[:18])
         elif c4 != c5:
             bad = bad or ("restore-differs", "GET /config differs before and after a restart at the same revision: %r / %r" % (diffline(c4, c5)), gops)
+    # the configuration in force decides what the node does, not what it answered under an earlier revision: the CORS grant
+    # follows WhitelistedOrigins of the current revision, on the node that served requests all along and after a restart alike
+    oa, ob, oc = "https://a.example", "https://b.example", "https://c.example"
+    base = 'SessionExpiration = "10m0s"\nPostMessageCooloff = "0s"\n[IRC]\n'
+    cfg1 = base + '[WhitelistedOrigins]\n"%s" = true\n"%s" = false\n' % (oa, ob)
+    cfg2 = base + '[WhitelistedOrigins]\n"%s" = true\n' % ob
+    eops = ["start", "postconfig %s 0 %s" % (PW, hx(cfg1)), "origin " + hx(oa), "origin " + hx(ob), "origin " + hx(oc),
+            "postconfig %s 1 %s" % (PW, hx(cfg2)), "origin " + hx(oa), "origin " + hx(ob), "origin " + hx(oc),
+            "snapshot 7200", "restart", "origin " + hx(oa), "origin " + hx(ob), "origin " + hx(oc)]
+    gl, err = api_run.run_ops(exe, eops, tag="c16e")
+    evals += len(eops)
+    if err or len(gl) != len(eops):
+        bad = bad or ("harness", err or "short output", eops)
+    else:
+        granted = lambda i: kv(gl[i]).get("acao", "-") != "-"
+        want = {2: True, 3: False, 4: False, 6: False, 7: True, 8: False, 11: False, 12: True, 13: False}
+        for i in sorted(want):
+            if granted(i) != want[i]:
+                bad = bad or ("effect-origin", "after `%s` a request with Origin %s was %s; the configuration in force (revision %d) says %s" % (
+                    "restart" if i > 10 else eops[5 if i > 5 else 1][:24], bytes.fromhex(eops[i].split()[1]).decode(), "granted" if granted(i) else "not granted", 1 if i < 5 else 2,
+                    "granted" if want[i] else "not granted"), eops[:i + 1])
+                break
+        run.obligation("effects follow the configuration in force: CORS grants under two revisions and after snapshot+restart (9 probes)", not (bad and bad[0] == "effect-origin"), bad[1] if bad and bad[0] == "effect-origin" else "")
     if decisions:
         ll, lerr = api_run.lean_decisions([d[0] for d in decisions])
         mism = None
